@@ -931,6 +931,7 @@ class RpcServer:
                 except ProtocolVersionError as exc:
                     err_schema = info.result_schema if info.method_type == MethodType.UNARY else _EMPTY_SCHEMA
                     _write_error_stream(transport.writer, err_schema, exc, server_id=self._server_id)
+                    self._discard_refused_stream_input(transport, info)
                     return
 
             # Request validation. Both steps are answered with a typed error
@@ -954,6 +955,7 @@ class RpcServer:
             except Exception as exc:
                 err_schema = info.result_schema if info.method_type == MethodType.UNARY else _EMPTY_SCHEMA
                 _write_error_stream(transport.writer, err_schema, exc, server_id=self._server_id)
+                self._discard_refused_stream_input(transport, info)
                 return
 
             # Determine the SHM segment for this call's data plane (resolving
@@ -996,6 +998,25 @@ class RpcServer:
             _current_request_metadata.reset(md_token)
             _current_call_stats.reset(stats_token)
             _current_request_id.reset(token)
+
+    def _discard_refused_stream_input(self, transport: RpcTransport, info: RpcMethodInfo) -> None:
+        """Consume the input stream a client sends after a refused header-less stream call.
+
+        A stream method that declares no header gives the client nothing to
+        read before it writes its first input batch (a tick, an exchange input,
+        a cancel, or a bare EOS on close), so the client learns that the call was
+        refused only from the response to that input.  Unless that input IPC
+        stream is consumed here it is read as the next *request*: it carries no
+        ``vgi_rpc.method`` and is answered with a protocol error, and from then
+        on every call on the connection receives its predecessor's response.
+
+        Streams that declare a header are unaffected -- their client reads the
+        error in place of the header and never opens an input stream.
+        """
+        if info.method_type != MethodType.STREAM or info.header_type is not None:
+            return
+        with contextlib.suppress(pa.ArrowInvalid, OSError, EOFError, StopIteration):
+            _drain_stream(ValidatedReader(ipc.open_stream(transport.reader), self._ipc_validation))
 
     def _prepare_method_call(
         self, info: RpcMethodInfo, kwargs: dict[str, object]
@@ -1144,6 +1165,7 @@ class RpcServer:
             error_message = str(exc)
             with contextlib.suppress(BrokenPipeError, OSError):
                 _write_error_stream(transport.writer, _EMPTY_SCHEMA, exc, server_id=self._server_id)
+            self._discard_refused_stream_input(transport, info)
             return
         finally:
             if status == "error":
